@@ -196,11 +196,12 @@ class AsyncServer(base_server.BaseServer):
                 if sid in self.sockets:  # pragma: no cover
                     del self.sockets[sid]
         else:
-            await asyncio.wait([
-                asyncio.create_task(client.close(
-                    reason=self.reason.SERVER_DISCONNECT))
-                for client in self.sockets.values()
-            ])
+            if self.sockets:
+                await asyncio.wait([
+                    asyncio.create_task(client.close(
+                        reason=self.reason.SERVER_DISCONNECT))
+                    for client in self.sockets.values()
+                ])
             self.sockets = {}
 
     async def handle_request(self, *args, **kwargs):
